@@ -25,7 +25,7 @@ from harness.core import Run, run_tlc, parse_dump, main_wrap, MachineryError
 PID = "C19"
 RTOL = 1e-9
 NPROC = int(os.environ.get("VERIF_WORKERS", "16"))
-TREE_TIMEOUT = 30        # seconds per tree (all directions and variants); SymPy occasionally does not return
+TREE_TIMEOUT = 20        # seconds per tree (all directions and variants); SymPy occasionally does not return
 
 UN = ("neg", "sqrt", "sin", "cos", "tan", "atan")
 BIN = ("add", "sub", "mul", "div", "lt", "le", "eq", "ne", "min", "max", "fmod", "rem")
